@@ -648,7 +648,9 @@ pub(crate) fn shr(lhs: Number, rhs: Number, arena: &mut Arena) -> Result<Number,
                 }
             };
 
-            let res = lhs.get_num().checked_shr(rhs).unwrap_or(0);
+            // a shift by 64 or more bits leaves only the sign: 0, or -1 for a negative operand
+            let lhs = lhs.get_num();
+            let res = lhs.checked_shr(rhs).unwrap_or(if lhs < 0 { -1 } else { 0 });
             Ok(Number::arena_from(res, arena))
         }
         Number::Integer(lhs) => {
